@@ -111,10 +111,17 @@ Expected(m, e, k) ==
   \* seek_by(x frames): a target before the beginning of the sound lands on its first frame
   ELSE IF e.cont[k] + m.pend[k][1].x < e.n - 1 THEN e.n - 1 ELSE e.cont[k] + m.pend[k][1].x
 
+\* playback-state keys: the command is seen to have taken effect when the handle reports a state of its family - pausing or
+\* paused, resuming or playing; when exactly a fade-driven step is reported is C03's business ("to within one callback"), and for
+\* tracks no statement fixes it
+RunKey(k) == k \in {"s1.run", "s2.run", "t.run", "ps.run", "pn.run"}
+Fam(v) == IF v \in {"Paused", "Pausing"} THEN "p" ELSE IF v \in {"Playing", "Resuming"} THEN "r" ELSE v
+
 Wrong(m, e) ==
   { k \in DOMAIN m.val :
       IF IsSj(k) THEN SjBad(m, e, k) # ""
       ELSE IF IsDl(k) THEN e.obs[k] \notin {DlVal(m, k), DlEarly(m, k)}
+      ELSE IF RunKey(k) THEN Fam(e.obs[k]) # Fam(Expected(m, e, k))
       ELSE IF e.jump[k] = "no" THEN e.obs[k] # Expected(m, e, k)
       ELSE e.obs[k] - Expected(m, e, k) > 1 \/ Expected(m, e, k) - e.obs[k] > 4 }
 
